@@ -189,12 +189,16 @@ impl PatchName {
                 let inner = &candidate.0;
                 let base = inner.trim_end_matches(|c: char| c.is_ascii_digit());
                 let num_digits = inner.len() - base.len();
-                candidate = if num_digits > 0 {
-                    let digits_str = &inner[inner.len() - num_digits..];
-                    let n = digits_str.parse::<usize>().unwrap() + 1;
+                let digits_str = &inner[inner.len() - num_digits..];
+                // An empty or too large digit suffix gets a new "-1" suffix instead.
+                candidate = if let Some(n) = digits_str
+                    .parse::<usize>()
+                    .ok()
+                    .and_then(|n| n.checked_add(1))
+                {
                     Self(format!("{base}{n}"))
                 } else {
-                    Self(format!("{base}-1"))
+                    Self(format!("{inner}-1"))
                 }
             }
         }
